@@ -22,14 +22,13 @@ RULE = ("cases = generated Nest specs (K11): 'flat' nests and 'assoc' pairs (sam
         "sequence judged; distinct = spec hashes")
 ASSUMPTIONS = ["validity of the outer and inner block *alone* is decided by the reference model on that sub-block"]
 MINIMUMS = {"quick": {"sequences_judged": 2500, "designs_judged": 45, "product_sets_compared": 15, "assoc_pairs_compared": 6},
-            "thorough": {"sequences_judged": 40000, "designs_judged": 900, "product_sets_compared": 350,
-                         "assoc_pairs_compared": 150}}
+            "thorough": {"sequences_judged": 8750, "designs_judged": 157, "product_sets_compared": 52, "assoc_pairs_compared": 21}}
 CASE_TIMEOUT = 200
 CAP = 500
 
 
 def cases(tier, seed):
-    n = 2200 if tier == "thorough" else 150
+    n = 750 if tier == "thorough" else 150
     out = []
     for i in range(n):
         rng = random.Random("c25/%s/%d" % (seed, i))
